@@ -544,6 +544,51 @@ func sumsLoopOver(info *types.Info, body ast.Node, obj types.Object, skip ast.No
 	if obj == nil {
 		return false
 	}
+	// an index loop over the statements: for i := 0; i < len(stmts); i++ { … Write … sums[i] = … }
+	ast.Inspect(body, func(m ast.Node) bool {
+		fs, ok := m.(*ast.ForStmt)
+		if !ok || ast.Node(fs) == skip || fs.Cond == nil {
+			return true
+		}
+		be, ok := ast.Unparen(fs.Cond).(*ast.BinaryExpr)
+		if !ok || be.Op != token.LSS {
+			return true
+		}
+		iv, ok := ast.Unparen(be.X).(*ast.Ident)
+		if !ok {
+			return true
+		}
+		lc, ok := ast.Unparen(be.Y).(*ast.CallExpr)
+		if !ok || builtinName(info, lc) != "len" || len(lc.Args) != 1 {
+			return true
+		}
+		if x, ok := ast.Unparen(lc.Args[0]).(*ast.Ident); !ok || info.ObjectOf(x) != obj {
+			return true
+		}
+		hasWrite, hasStore := false, false
+		ast.Inspect(fs.Body, func(k ast.Node) bool {
+			if call, ok := k.(*ast.CallExpr); ok {
+				if fn := calleeOf(info, call); fn != nil && (fn.Name() == "Write" || fn.Name() == "WriteString") {
+					hasWrite = true
+				}
+			}
+			if as, ok := k.(*ast.AssignStmt); ok {
+				if ix, ok := as.Lhs[0].(*ast.IndexExpr); ok {
+					if i, ok := ix.Index.(*ast.Ident); ok && info.ObjectOf(i) == info.ObjectOf(iv) {
+						hasStore = true
+					}
+				}
+			}
+			return true
+		})
+		if hasWrite && hasStore {
+			found = true
+		}
+		return true
+	})
+	if found {
+		return true
+	}
 	ast.Inspect(body, func(m ast.Node) bool {
 		rs, ok := m.(*ast.RangeStmt)
 		if !ok || ast.Node(rs) == skip {
@@ -968,25 +1013,70 @@ func runC12(c *Ctx) {
 		sameIdx, prefix := false, ""
 		if iv != nil {
 			var sumsIdx, phIdx bool
-			ast.Inspect(loopBody, func(m ast.Node) bool {
-				switch x := m.(type) {
-				case *ast.IndexExpr:
-					id, ok := x.Index.(*ast.Ident)
-					if !ok || info.ObjectOf(id) != iv {
-						return true
+			var scan func(body ast.Node, idx types.Object, depth int)
+			scan = func(body ast.Node, idx types.Object, depth int) {
+				ast.Inspect(body, func(m ast.Node) bool {
+					switch x := m.(type) {
+					case *ast.IndexExpr:
+						id, ok := x.Index.(*ast.Ident)
+						if !ok || info.ObjectOf(id) != idx {
+							return true
+						}
+						if isField(info, x.X, pMigrate, "Revision", "PartialHashes") {
+							phIdx = true
+						} else if _, ok := x.X.(*ast.Ident); ok {
+							sumsIdx = true
+						}
+					case *ast.CallExpr:
+						if fn := calleeOf(info, x); fn != nil && fn.Pkg() != nil && fn.Pkg().Path() == "strings" && fn.Name() == "TrimPrefix" && len(x.Args) == 2 {
+							prefix, _ = stringConst(info, x.Args[1])
+						}
+						// the comparison moved into a predicate (a local closure or a package function) that is handed the index
+						if depth < 1 {
+							for ai, a := range x.Args {
+								aid, ok := ast.Unparen(a).(*ast.Ident)
+								if !ok || info.ObjectOf(aid) != idx {
+									continue
+								}
+								var ftype *ast.FuncType
+								var fbody *ast.BlockStmt
+								if fid, ok := ast.Unparen(x.Fun).(*ast.Ident); ok {
+									fobj := info.ObjectOf(fid)
+									ast.Inspect(s.fi.Decl.Body, func(k ast.Node) bool {
+										if das, ok := k.(*ast.AssignStmt); ok && len(das.Lhs) == len(das.Rhs) {
+											for di, dl := range das.Lhs {
+												if did, ok := dl.(*ast.Ident); ok && info.ObjectOf(did) == fobj {
+													if fl, ok := ast.Unparen(das.Rhs[di]).(*ast.FuncLit); ok {
+														ftype, fbody = fl.Type, fl.Body
+													}
+												}
+											}
+										}
+										return true
+									})
+								}
+								if fbody == nil {
+									if hf := c.FuncInfoOf(calleeOf(info, x)); hf != nil && hf.Decl.Body != nil && hf.Pkg.PkgPath == pMigrate {
+										ftype, fbody = hf.Decl.Type, hf.Decl.Body
+									}
+								}
+								if fbody == nil || ftype.Params == nil {
+									continue
+								}
+								var ps []*ast.Ident
+								for _, fld := range ftype.Params.List {
+									ps = append(ps, fld.Names...)
+								}
+								if ai < len(ps) {
+									scan(fbody, info.ObjectOf(ps[ai]), depth+1)
+								}
+							}
+						}
 					}
-					if isField(info, x.X, pMigrate, "Revision", "PartialHashes") {
-						phIdx = true
-					} else if _, ok := x.X.(*ast.Ident); ok {
-						sumsIdx = true
-					}
-				case *ast.CallExpr:
-					if fn := calleeOf(info, x); fn != nil && fn.Pkg() != nil && fn.Pkg().Path() == "strings" && fn.Name() == "TrimPrefix" && len(x.Args) == 2 {
-						prefix, _ = stringConst(info, x.Args[1])
-					}
-				}
-				return true
-			})
+					return true
+				})
+			}
+			scan(loopBody, iv, 0)
 			sameIdx = sumsIdx && phIdx
 		}
 		c.Check("R12b", "Execute|compare sums[i] vs PartialHashes[i]", node.Pos(), sameIdx, "the mismatch test must compare sums[i] with r.PartialHashes[i] using the loop index on both sides")
